@@ -23,16 +23,22 @@ Definition log_discard (i t : N) : list entry := [{| e_index := i; e_term := t; 
 (* ---------------- the user state machine of the harness ---------------- *)
 (* Snapshot: 4 bytes big-endian per applied payload; Restore parses them back. *)
 Definition be4 (p : N) : list N := [(p / 16777216) mod 256; (p / 65536) mod 256; (p / 256) mod 256; p mod 256].
-Definition fsm_snap (st : list N) : list N := flat_map be4 st.
-Fixpoint fsm_unsnap_f (fuel : nat) (bs : list N) : list N :=
-  match fuel with
+(* count, payloads, then [pad] zero bytes (the harness pads snapshots to exercise multi-chunk transfers) *)
+Definition fsm_snap (pad : N) (st : list N) : list N :=
+  be4 (N.of_nat (length st)) ++ flat_map be4 st ++ repeat 0 (N.to_nat pad).
+Fixpoint take_words (k : nat) (bs : list N) : list N :=
+  match k with
   | O => []
-  | S f => match bs with
-           | a :: b :: c :: d :: r => (a * 16777216 + b * 65536 + c * 256 + d) :: fsm_unsnap_f f r
-           | _ => []
-           end
+  | S k' => match bs with
+            | a :: b :: c :: d :: r => (a * 16777216 + b * 65536 + c * 256 + d) :: take_words k' r
+            | _ => []
+            end
   end.
-Definition fsm_unsnap (bs : list N) : list N := fsm_unsnap_f (length bs) bs.
+Definition fsm_unsnap (bs : list N) : list N :=
+  match bs with
+  | a :: b :: c :: d :: r => take_words (N.to_nat (a * 16777216 + b * 65536 + c * 256 + d)) r
+  | _ => []
+  end.
 
 (* ---------------- storage writes under a crash budget ---------------- *)
 Definition tick_write (n : node) : bool * node :=
@@ -249,7 +255,8 @@ Definition h_install_snapshot (now : N) (n : node) (q : is_req) : node * option 
             then become_follower now n1 (is_leader q) (is_term q) else n1 in
   let n3 := n2 <| n_contact := now |> in
   let reply n' w := (n', Some {| isr_term := rterm; isr_written := w |}) in
-  if (is_lii q <=? n_lii n3) || (is_lii q <=? n_applied n3) then reply n3 0 else
+  (* fix: D13 - nothing new: the chunk is acknowledged so that the sender can finish the transfer *)
+  if (is_lii q <=? n_lii n3) || (is_lii q <=? n_applied n3) then reply n3 (is_offset q + N.of_nat (length (is_bytes q))) else
   (* known finding D10: a chunk of an older snapshot is appended to the partial file of a newer one *)
   let n4 := match n_partial n3 with
             | Some p => if s_index p <? is_lii q then n3 <| n_partial := None |> else n3
